@@ -11,6 +11,7 @@ mod c01;
 mod extract;
 mod c11;
 mod c06;
+mod c10;
 mod jsonmut;
 
 use std::collections::HashMap;
@@ -57,6 +58,7 @@ fn main() {
         "extract" => extract::run(&o),
         "c11" => c11::run(&o),
         "c06" => c06::run(&o),
+        "c10" => c10::run(&o),
         "c09" => c01::run_c09(&o),
         other => {
             eprintln!("unknown stream {other}");
